@@ -448,6 +448,18 @@ func c11GenAlgo(t *rapid.T, algo int) c11Case {
 	default:
 		g = c10GenV21(t)
 	}
+	if len(g.Sets) >= 2 && rapid.IntRange(0, 11).Draw(t, "manySets") == 0 {
+		// a room with very many forward extremities: the first sets over and over (64 to 70 of them),
+		// the set that differs from them last
+		n := rapid.IntRange(63, 70).Draw(t, "manySetsN")
+		last := g.Sets[len(g.Sets)-1]
+		head := g.Sets[:len(g.Sets)-1]
+		var wide [][]int
+		for i := 0; i < n; i++ {
+			wide = append(wide, head[i%len(head)])
+		}
+		g.Sets = append(wide, last)
+	}
 	c := c11Case{G: g, Seed: rapid.Uint64().Draw(t, "seed"), Perms: rapid.IntRange(2, 6).Draw(t, "perms"), Equal: rapid.Bool().Draw(t, "equal")}
 	n := rapid.IntRange(0, len(g.Events)).Draw(t, "nsubset")
 	for i := 0; i < n; i++ {
